@@ -320,6 +320,8 @@ def _tvl_op(self, arg, comparison, builtins=None):
         arg_mask = False
 
     new_mask = Qube.or_(self._mask_, arg_mask)
+    if np.shape(new_mask) and isinstance(comparison, Qube):
+        new_mask = np.broadcast_to(new_mask, comparison._shape_)
 
     # Return a Python bool if appropriate
     if isinstance(comparison, bool):
